@@ -139,7 +139,7 @@ def path_fees(S, D):
     equal paths are combined). Whole function, N = 1..3 hops (loop fully unrolled), hop policies and htlc minima
     symbolic (CandidateRouteHop::fees / htlc_minimum_msat stubbed per hop)."""
     import re
-    for N in ((1, 2, 3) if S.tier == 'quick' else (1, 2, 3, 4)):
+    for N in ((1, 2, 3, 4) if S.tier == 'quick' else (1, 2, 3, 4, 5)):
         tag = 'C16.d.n%d' % N
         ids = [tag + k for k in ('.paid_policy_fee', '.htlc_minimum', '.returns_delivered', '.nopanic', '.witness', '.validate')]
         if all(S._skip(o) for o in ids):
